@@ -31,8 +31,11 @@ def UCHAR_OPEN : Nat := 40      -- '('
 def UCHAR_CLOSE : Nat := 41     -- ')'
 /-- `INT_MAX` of the platform the library is built for (32-bit `int`) -/
 def INT_MAX : Nat := 2147483647
-/-- `(INT_MAX / 10) - 1`: the exponent accumulator stops taking digits once it reaches this value -/
-def expSatLimit : Nat := 214748363
+/-- `INT_MAX / 20`: the exponent accumulator stops taking digits once it reaches this value (leaves more than 10⁹ of
+    head room below INT_MAX for the digit counts that are later added to the scale) -/
+def expSatLimit : Nat := 107374182
+/-- the bound of the tree before fix d4436fb, `(INT_MAX / 10) - 1` (kept for the counterexample theorem) -/
+def expSatLimitPinned : Nat := 214748363
 def CIF_LINE_LENGTH : Nat := 2048
 def DBL_MANT_DIG : Nat := 53
 def DBL_DIG : Nat := 15
@@ -83,13 +86,16 @@ def trimZeros : Str → Str
   | [] => []
   | c :: rest => if c = UCHAR_0 ∧ rest ≠ [] then trimZeros rest else c :: rest
 
-/-- one step of the exponent accumulation, with the saturation introduced by the overflow fix:
-    `if (exponent < (INT_MAX / 10) - 1) exponent = exponent * 10 + (c - '0');` -/
-def expStep (e : Nat) (c : Nat) : Nat :=
-  if e < expSatLimit then e * 10 + (c - UCHAR_0) else e
+/-- one step of the exponent accumulation, with the saturation introduced by the overflow fixes (`lim` = the bound):
+    `if (exponent < INT_MAX / 20) exponent = exponent * 10 + (c - '0');` -/
+def expStepL (lim : Nat) (e : Nat) (c : Nat) : Nat :=
+  if e < lim then e * 10 + (c - UCHAR_0) else e
 
 /-- the exponent digit loop -/
-def expAccum (ds : Str) : Nat := ds.foldl expStep 0
+def expAccumL (lim : Nat) (ds : Str) : Nat := ds.foldl (expStepL lim) 0
+
+def expStep (e c : Nat) : Nat := expStepL expSatLimit e c
+def expAccum (ds : Str) : Nat := expAccumL expSatLimit ds
 
 /-- character codes → digit values -/
 def digitVals (s : Str) : List Nat := s.map (· - UCHAR_0)
@@ -102,18 +108,16 @@ def takeSign (s : Str) : Bool × Str :=
 
 /-- the optional exponent part, entered when the next unit is `E`/`e`: `none` = CIF_INVALID_NUMBER,
     `some (scale contribution, rest)` -/
-def parseExp (s : Str) : Option (Int × Str) :=
+def parseExpL (lim : Nat) (s : Str) : Option (Int × Str) :=
   match s with
   | c :: r =>
     if c = UCHAR_E ∨ c = UCHAR_e then
-      let (eneg, r1) := takeSign r
-      let ex := r1.takeWhile isDigit
-      let r2 := r1.dropWhile isDigit
-      if ex = [] then none                                  -- no exponent digits
+      if (takeSign r).2.takeWhile isDigit = [] then none                                  -- no exponent digits
       else
-        let e : Int := (expAccum ex : Nat)
         -- n_temp.scale = exponent * (-exp_sign)
-        some (if eneg then e else -e, r2)
+        some (if (takeSign r).1 then ((expAccumL lim ((takeSign r).2.takeWhile isDigit) : Nat) : Int)
+              else -((expAccumL lim ((takeSign r).2.takeWhile isDigit) : Nat) : Int),
+              (takeSign r).2.dropWhile isDigit)
     else some (0, s)
   | [] => some (0, [])
 
@@ -122,48 +126,53 @@ def parseSu (s : Str) : Option (Option Str × Str) :=
   match s with
   | c :: r =>
     if c = UCHAR_OPEN then
-      let sd := r.takeWhile isDigit
-      let r1 := r.dropWhile isDigit
-      match r1 with
+      match r.dropWhile isDigit with
       | c1 :: r2 =>
-        if sd = [] ∨ c1 ≠ UCHAR_CLOSE then none
-        else some (some (trimZeros sd), r2)
+        if r.takeWhile isDigit = [] ∨ c1 ≠ UCHAR_CLOSE then none
+        else some (some (trimZeros (r.takeWhile isDigit)), r2)
       | [] => none                                          -- missing ')'
     else some (none, s)
   | [] => some (none, [])
 
-/-- `cif_value_parse_numb` on a NUL-free text: `none` = CIF_INVALID_NUMBER (value object untouched). -/
-def parseNumbZ (text : Str) : Option NumbFields :=
-  -- optional leading sign
-  let (neg, s0) := takeSign text
-  -- mandatory digit string with optional single decimal point
-  let a := s0.takeWhile isDigit
-  let s1 := s0.dropWhile isDigit
-  let hasPoint : Bool := match s1 with | c :: _ => c = UCHAR_DECIMAL | [] => false
-  let s2 := if hasPoint then s1.drop 1 else s1
-  let b := if hasPoint then s2.takeWhile isDigit else []
-  let s3 := if hasPoint then s2.dropWhile isDigit else s2
+/-! the mandatory digit string with optional single decimal point, on the text after the sign -/
+
+/-- digits before the point -/
+def mantA (s0 : Str) : Str := s0.takeWhile isDigit
+def afterA (s0 : Str) : Str := s0.dropWhile isDigit
+/-- the scan loop takes one decimal point -/
+def hasPoint (s0 : Str) : Bool := match afterA s0 with | c :: _ => decide (c = UCHAR_DECIMAL) | [] => false
+/-- digits after the point -/
+def mantB (s0 : Str) : Str := if hasPoint s0 then ((afterA s0).drop 1).takeWhile isDigit else []
+/-- what follows the digit string (`text + pos` after the scan loop) -/
+def afterMant (s0 : Str) : Str := if hasPoint s0 then ((afterA s0).drop 1).dropWhile isDigit else afterA s0
+/-- `num_decimal` after "Consume a trailing decimal point": a point with digits behind it -/
+def numDecimal (s0 : Str) : Bool := hasPoint s0 && !(mantB s0).isEmpty
+/-- `text[digit_start .. digit_end)` before the trimming loop -/
+def mantRegion (s0 : Str) : Str := if numDecimal s0 then mantA s0 ++ UCHAR_DECIMAL :: mantB s0 else mantA s0
+/-- the digit string copied into the value: trimmed region without the point, as digit values -/
+def mantDigits (s0 : Str) : List Nat := digitVals ((trimLead (mantRegion s0)).filter (· ≠ UCHAR_DECIMAL))
+
+/-- `cif_value_parse_numb` on a NUL-free text with saturation bound `lim`: `none` = CIF_INVALID_NUMBER (value object
+    untouched). -/
+def parseNumbZL (lim : Nat) (text : Str) : Option NumbFields :=
   -- pos <= digit_start + num_decimal : no digits
-  if a.length + b.length = 0 then none
+  if (mantA (takeSign text).2).length + (mantB (takeSign text).2).length = 0 then none
   else
-    -- a trailing decimal point is consumed: num_decimal = 0, digit_end = pos - 1
-    let numDecimal : Bool := hasPoint && !b.isEmpty
-    let region : Str := if numDecimal then a ++ UCHAR_DECIMAL :: b else a
-    let kept := trimLead region
-    match parseExp s3 with
+    match parseExpL lim (afterMant (takeSign text).2) with
     | none => none
-    | some (esc, s4) =>
-      -- if (num_decimal == 1) scale += digit_end - (decimal_pos + 1)
-      let scale : Int := if numDecimal then esc + (b.length : Nat) else esc
-      match parseSu s4 with
+    | some r =>
+      match parseSu r.2 with
       | none => none
-      | some (su, s5) =>
-        if s5 ≠ [] then none                                -- unparsed tail
+      | some u =>
+        if u.2 ≠ [] then none                                -- unparsed tail
         else
-          some { neg := neg
-                 digits := digitVals (kept.filter (· ≠ UCHAR_DECIMAL))
-                 su := su.map digitVals
-                 scale := scale }
+          some { neg := (takeSign text).1
+                 digits := mantDigits (takeSign text).2
+                 su := u.1.map digitVals
+                 -- if (num_decimal == 1) scale += digit_end - (decimal_pos + 1)
+                 scale := if numDecimal (takeSign text).2 then r.1 + ((mantB (takeSign text).2).length : Nat) else r.1 }
+
+def parseNumbZ (text : Str) : Option NumbFields := parseNumbZL expSatLimit text
 
 /-- `cif_value_parse_numb(n, text)`: the fields on success, `none` when the C returns CIF_INVALID_NUMBER and leaves
     the value object unchanged. -/
@@ -178,5 +187,384 @@ def numbOfText (quoted : Bool) (text : Str) : V :=
   match parseNumb text with
   | some f => V.numb quoted (cstr text) f.neg f.digits f.su f.scale
   | none => V.chr quoted text
+
+
+/-! ### doubles
+
+  A finite double is `±m·2^e`.  `Dbl.fin` carries any such pair; the canonical pair (what the executors print) has
+  `2^52 ≤ m < 2^53` for normal numbers, `e = -1074` for subnormal ones and `m = 0, e = 0` for zero. -/
+
+inductive Dbl where
+  | fin (neg : Bool) (m : Nat) (e : Int)
+  | inf (neg : Bool)
+  | nan
+deriving Repr, DecidableEq, Inhabited
+
+def pow2 (k : Nat) : Nat := 2 ^ k
+def pow10 (k : Nat) : Nat := 10 ^ k
+
+/-- number of binary digits of `n` (`0` for `0`) -/
+def bitLen (n : Nat) : Nat := if n = 0 then 0 else Nat.log2 n + 1
+
+/-- Round-half-even of the quotient `X / Y` by exact integer arithmetic (quotient, remainder, compare `2r` with `Y`,
+    parity) — the arithmetic content of `round_it`/`compare_half`/`is_zero` in the default rounding mode. -/
+def rhe (X Y : Nat) : Nat :=
+  let q := X / Y
+  let r := X % Y
+  if 2 * r > Y then q + 1 else if 2 * r = Y then (if q % 2 = 1 then q + 1 else q) else q
+
+/-- `ldexp((double) m, e)` for an integer `m ≤ 2^53` in the default rounding mode: exact when the result is a normal
+    number, rounded to a multiple of `2^-1074` (ties to even) below the normal range, infinite above it.
+    The result is canonical. -/
+def ldexpNat (neg : Bool) (m : Nat) (e : Int) : Dbl :=
+  if m = 0 then .fin neg 0 0
+  else
+    let b := bitLen m
+    -- value in [2^(e+b-1), 2^(e+b))
+    if e + b > 1024 then .inf neg
+    else if e + b - 1 ≥ -1022 then
+      -- normal: present with a 53-bit mantissa (m < 2^53 is the caller's business; a 54-bit m = 2^53 is halved exactly)
+      if b ≤ 53 then .fin neg (m * pow2 (53 - b)) (e - ((53 - b : Nat) : Int))
+      else .fin neg (m / pow2 (b - 53)) (e + ((b - 53 : Nat) : Int))
+    else
+      -- subnormal: round to a multiple of 2^-1074
+      if e ≥ -1074 then .fin neg (m * pow2 (e + 1074).toNat) (-1074)
+      else
+        let m' := rhe m (pow2 (-1074 - e).toNat)
+        if m' = 0 then .fin neg 0 0 else .fin neg m' (-1074)
+
+/-- digit values, most significant first → the number they denote -/
+def natOfDigits (ds : List Nat) : Nat := ds.foldl (fun acc d => acc * 10 + d) 0
+
+/-- decimal digits of `n`, most significant first, `[0]` for zero (structural recursion on fuel) -/
+def decDigitsF : Nat → Nat → List Nat
+  | 0, _ => []
+  | fuel + 1, n => if n < 10 then [n] else decDigitsF fuel (n / 10) ++ [n % 10]
+
+def decDigits (n : Nat) : List Nat := decDigitsF (n + 1) n
+
+/-- `⌊log₂ (p/q)⌋` for positive `p`, `q` -/
+def flog2Rat (p q : Nat) : Int :=
+  if q ≤ p then (Nat.log2 (p / q) : Nat)
+  else
+    -- least j with q ≤ p·2^j
+    let c := Nat.log2 (q / p)
+    if q ≤ p * pow2 c then -(c : Int) else -((c : Int) + 1)
+
+/-- least `k ≤ fuel` with `den ≤ num·10^k` (search upward) -/
+def leastPow10 : Nat → Nat → Nat → Nat → Nat
+  | 0, _, _, k => k
+  | fuel + 1, num, den, k => if den ≤ num * pow10 k then k else leastPow10 fuel num den (k + 1)
+
+/-- `⌊log₁₀ (num/den)⌋` for positive `num`, `den` (what `MSP` computes when libm's `log10` is exact enough) -/
+def flog10Rat (num den : Nat) : Int :=
+  if den ≤ num then (((decDigits (num / den)).length - 1 : Nat) : Int)
+  else -((leastPow10 400 num den 0 : Nat) : Int)
+
+/-- a finite double `m·2^e` as a fraction of naturals -/
+def ratOfBin (m : Nat) (e : Int) : Nat × Nat :=
+  if e ≥ 0 then (m * pow2 e.toNat, 1) else (m, pow2 (-e).toNat)
+
+/-! ### to_double — exact-arithmetic level
+
+  The C keeps the number as a fixed-point base-10⁹ bignum whose fraction grows as far as needed, so every shift is an
+  exact multiplication or division by a power of two.  At this level the bignum is the fraction `num/den`. -/
+
+/-- the "shift left" loop: `while ((exponent > right_shift_max) && ((lsd - digits) > units_digit))`, in steps of at
+    most `BDIG_PER_DIG` bits; it stops early as soon as no fractional part is left -/
+def shlLoop : Nat → Nat → Nat → Int → Int → Nat × Int
+  | 0, num, _, exp, _ => (num, exp)
+  | fuel + 1, num, den, exp, rsMax =>
+    if rsMax < exp ∧ num % den ≠ 0 then
+      let shift := min BDIG_PER_DIG (exp - rsMax).toNat
+      shlLoop fuel (num * pow2 shift) den (exp - (shift : Nat)) rsMax
+    else (num, exp)
+
+/-- "compute the integer mantissa, applying a one-bit left shift if it turns out to be needed"
+    (`while (CIF_TRUE)`): returns `(num, exponent)` on leaving the loop -/
+def mantLoop : Nat → Nat → Nat → Int → Nat × Int
+  | 0, num, _, exp => (num, exp)
+  | fuel + 1, num, den, exp =>
+    if pow2 52 ≤ num / den ∨ num % den = 0 then (num, exp)
+    else mantLoop fuel (num * 2) den (exp - 1)
+
+/-- `round_to_int` + `round_it` (FE_TONEAREST) + `compare_half`/`is_zero` on the fraction `num/den`:
+    the parity of the truncated mantissa decides an exact tie -/
+def roundToInt (num den : Nat) : Nat :=
+  let m := num / den
+  let r := num % den
+  if r = 0 then m                                  -- lsd < work_digit: no fractional digits
+  else
+    let parity := m % 2
+    let rounded :=                                    -- round_it(0, parity, …)
+      if den < 2 * r then parity + 1                  -- compare > 0
+      else if 2 * r = den then (if parity = 1 then 2 else 0)   -- (round_value + 1) & ~1
+      else parity
+    (m - parity) + rounded
+
+/-- The part of `to_double` after the digit string has been read into the bignum: the value is `num0/den0`,
+    `un/ud` is the upper estimate `(d0+1)·10^msp` from which `right_shift_max` is computed. -/
+def toDoubleCore (num0 den0 un ud : Nat) : Dbl :=
+  -- right_shift_max = 1 + floor(log2((d0+1)·10^msp)) - DBL_MANT_DIG
+  let rsMax : Int := 1 + flog2Rat un ud - (DBL_MANT_DIG : Nat)
+  -- scale the significand
+  let sc : Nat × Nat × Int :=
+    if 0 < rsMax then (num0, den0 * pow2 rsMax.toNat, rsMax)
+    else if rsMax < 0 then
+      let r := shlLoop 64 num0 den0 0 rsMax
+      (r.1, den0, r.2)
+    else (num0, den0, 0)
+  let ml := mantLoop 64 sc.1 sc.2.1 sc.2.2
+  let mant := roundToInt ml.1 sc.2.1
+  -- account for overflow during rounding
+  if pow2 53 - 1 < mant then ldexpNat false 1 (ml.2 + (DBL_MANT_DIG : Nat)) else ldexpNat false mant ml.2
+
+/-- `to_double(ddigits, scale)` for a non-negative digit string (digit VALUES): the double it returns. -/
+def toDoubleBig (ds0 : List Nat) (scale : Int) : Dbl :=
+  -- skip leading zeroes
+  let ds := ds0.dropWhile (· = 0)
+  if ds = [] then .fin false 0 0
+  else
+    let lsp0 : Int := -scale
+    let msp : Int := lsp0 + ((ds.length - 1 : Nat) : Int)
+    -- ignore trailing zeroes
+    let sig := (ds.reverse.dropWhile (· = 0)).reverse
+    let lsp1 : Int := lsp0 + ((ds.length - sig.length : Nat) : Int)
+    -- truncate super-long digit strings
+    let long : Bool := decide (msp - lsp1 ≥ (CIF_LINE_LENGTH : Nat))
+    let sig2 := if long then sig.take CIF_LINE_LENGTH else sig
+    let lsp : Int := if long then 1 + msp - (CIF_LINE_LENGTH : Nat) else lsp1
+    if msp > DBL_MAX_10_EXP then .inf false                         -- DBL_MAX * FLT_RADIX
+    else if msp ≤ DBL_MIN_10_EXP - (DBL_DIG : Nat) then .fin false 0 0     -- DBL_MIN / 2^(DBL_MAX_EXP-1)
+    else
+      let d0 := ds.headD 1
+      let N := natOfDigits sig2
+      -- the value N·10^lsp as a fraction
+      let num0 := if lsp ≥ 0 then N * pow10 lsp.toNat else N
+      let den0 := if lsp ≥ 0 then 1 else pow10 (-lsp).toNat
+      let un := if msp ≥ 0 then (d0 + 1) * pow10 msp.toNat else d0 + 1
+      let ud := if msp ≥ 0 then 1 else pow10 (-msp).toNat
+      toDoubleCore num0 den0 un ud
+
+/-! ### to_digits — exact-arithmetic level -/
+
+/-- index of the bignum digit that holds decimal place `p` (units digit of the number in `UNITS_DIGIT = 34`) -/
+def limbOfPlace (p : Int) : Int := 34 - p / 9
+
+/-- `to_digits(d, scale)` for the finite double `±m·2^e` (default rounding mode: the sign plays no role):
+    the decimal digits of `|d|·10^scale` rounded half-even to an integer; `"0"` for `d = 0`; and — as the C does —
+    the EMPTY string when a non-zero `d` rounds to zero inside its own most significant bignum digit, but `"0"` when
+    it lies entirely below the bignum digit in which the rounding takes place. -/
+def toDigitsBig (m : Nat) (e : Int) (scale : Int) : List Nat :=
+  if m = 0 then [0]
+  else
+    let (vn, vd) := ratOfBin m e
+    -- |d|·10^scale as a fraction
+    let num := if scale ≥ 0 then vn * pow10 scale.toNat else vn
+    let den := if scale ≥ 0 then vd else vd * pow10 (-scale).toNat
+    let z := rhe num den
+    if z ≠ 0 then decDigits z
+    else
+      -- round_digit = UNITS_DIGIT + (scale <= 0 ? -((-scale)/9) : (scale + 8)/9)
+      let roundDigit : Int := if scale ≤ 0 then 34 - (((-scale).toNat / 9 : Nat) : Int) else 34 + (((scale.toNat + 8) / 9 : Nat) : Int)
+      let msd := limbOfPlace (flog10Rat vn vd)
+      if roundDigit < msd then [0] else []
+
+/-! ### format_text_decimal / format_text_sci -/
+
+def digitChars (ds : List Nat) : Str := ds.map (· + UCHAR_0)
+
+/-- `WRITE_SU` -/
+def suText (su : Option (List Nat)) : Str :=
+  match su with
+  | none => []
+  | some d => UCHAR_OPEN :: digitChars d ++ [UCHAR_CLOSE]
+
+/-- `su_size`: `strlen(su_buf)` (0 for an exact number) -/
+def suSize (su : Option (List Nat)) : Nat := match su with | none => 0 | some d => d.length
+
+/-- `total_chars` of format_text_decimal (terminator included) -/
+def decimalChars (neg : Bool) (digits : List Nat) (su : Option (List Nat)) (scale : Nat) : Nat :=
+  (if neg then 1 else 0) + (if digits.length ≤ scale then scale + 1 else digits.length)
+    + (if scale = 0 then 0 else 1) + (if suSize su > 0 then suSize su + 2 else 0) + 1
+
+/-- the characters format_text_decimal writes between the sign and the su -/
+def decimalBody (digits : List Nat) (scale : Nat) : Str :=
+  if digits.length ≤ scale then
+    -- whole_digits <= 0: "0." and leading zeroes
+    UCHAR_0 :: UCHAR_DECIMAL :: (List.replicate (scale - digits.length) UCHAR_0 ++ digitChars digits)
+  else
+    digitChars (digits.take (digits.length - scale)) ++ (if scale > 0 then [UCHAR_DECIMAL] else [])
+      ++ digitChars (digits.drop (digits.length - scale))
+
+def signChars (neg : Bool) : Str := if neg then [UCHAR_MINUS] else []
+
+/-- `format_text_decimal`; `none` = CIF_ARGUMENT_ERROR (text longer than a line).  Requires `scale ≥ 0`. -/
+def formatDecimal (neg : Bool) (digits : List Nat) (su : Option (List Nat)) (scale : Nat) : Option Str :=
+  if decimalChars neg digits su scale ≤ CIF_LINE_LENGTH + 1 then
+    some (signChars neg ++ decimalBody digits scale ++ suText su)
+  else none
+
+/-- `exponent_digits` decimal digits of `n`, zero padded (the loop `*(c + i) = (msp % 10) + '0'; msp /= 10`) -/
+def padDigits : Nat → Nat → Str
+  | 0, _ => []
+  | k + 1, n => padDigits k (n / 10) ++ [n % 10 + UCHAR_0]
+
+/-- `most_significant_place` of format_text_sci -/
+def sciMsp (digits : List Nat) (scale : Int) : Int :=
+  ((if digits.length > 0 then digits.length - 1 else 0 : Nat) : Int) - scale
+
+/-- `exponent_digits`: `((int) log10(abs(msp) + 0.5)) + 1`, at least 2 -/
+def sciExpDigits (digits : List Nat) (scale : Int) : Nat := max 2 (decDigits (sciMsp digits scale).natAbs).length
+
+/-- `total_chars` of format_text_sci -/
+def sciChars (neg : Bool) (digits : List Nat) (su : Option (List Nat)) (scale : Int) : Nat :=
+  (if neg then 1 else 0) + (if digits.length > 1 then digits.length + 1 else 1) + sciExpDigits digits scale + 2
+    + (if suSize su > 0 then suSize su + 2 else 0) + 1
+
+/-- the value digits of format_text_sci: first digit, and the rest behind a point -/
+def sciMant (digits : List Nat) : Str :=
+  match digits with
+  | [] => [UCHAR_0]
+  | d :: rest => (d + UCHAR_0) :: (if rest = [] then [] else UCHAR_DECIMAL :: digitChars rest)
+
+/-- the exponent field `e±dd` -/
+def sciExp (digits : List Nat) (scale : Int) : Str :=
+  UCHAR_e :: (if sciMsp digits scale < 0 then UCHAR_MINUS else UCHAR_PLUS)
+    :: padDigits (sciExpDigits digits scale) (sciMsp digits scale).natAbs
+
+/-- `format_text_sci`; `none` = CIF_ARGUMENT_ERROR -/
+def formatSci (neg : Bool) (digits : List Nat) (su : Option (List Nat)) (scale : Int) : Option Str :=
+  if sciChars neg digits su scale ≤ CIF_LINE_LENGTH + 1 then
+    some (signChars neg ++ sciMant digits ++ sciExp digits scale ++ suText su)
+  else none
+
+/-! ### cif_value_init_numb / cif_value_autoinit_numb
+
+  `msp` is the value of the macro `MSP(val)` = `(int) floor(log10(fabs(val)))` (0 for 0) as libm delivers it.  It is a
+  PARAMETER of the model: the correspondence run feeds the value observed in the executor, the oracle checks it against
+  the exact `⌊log₁₀|val|⌋`, and the theorems hold for every `msp`. -/
+
+/-- a finite double argument `±m·2^e` -/
+structure Bin where
+  neg : Bool
+  m : Nat
+  e : Int
+deriving Repr, DecidableEq, Inhabited
+
+/-- the exact `⌊log₁₀|v|⌋`, `0` for zero -/
+def mspExact (v : Bin) : Int :=
+  if v.m = 0 then 0 else let (n, d) := ratOfBin v.m v.e; flog10Rat n d
+
+/-- `digit_buf` of cif_value_init_numb: `to_digits(val, scale)`, an empty result replaced by `"0"`
+    ("the value rounds to zero at the specified scale, but it nevertheless has one (zero) digit") -/
+def initDigits (val : Bin) (scale : Int) : List Nat :=
+  if toDigitsBig val.m val.e scale = [] then [0] else toDigitsBig val.m val.e scale
+
+/-- `su_buf` of cif_value_init_numb: absent for `su = 0` and when no significant digits of uncertainty remain -/
+def initSu (su : Bin) (scale : Int) : Option (List Nat) :=
+  if su.m ≠ 0 then (if toDigitsBig su.m su.e scale = [] then none else some (toDigitsBig su.m su.e scale)) else none
+
+/-- choice of notation and formatting; `none` = the text would be longer than a line -/
+def initText (neg : Bool) (digits : List Nat) (suD : Option (List Nat)) (scale maxLead msp : Int) : Option Str :=
+  if scale ≥ 0 ∧ -(msp + 1) ≤ maxLead then formatDecimal neg digits suD scale.toNat
+  else formatSci neg digits suD scale
+
+/-- `cif_value_init_numb(n, val, su, scale, max_leading_zeroes)`: `.error code` or the new number value -/
+def initNumb (val su : Bin) (scale : Int) (maxLead : Int) (msp : Int) : Except Code V :=
+  if (su.neg ∧ su.m ≠ 0) ∨ -scale < LEAST_DBL_10_DIGIT ∨ -scale > DBL_MAX_10_EXP ∨ maxLead < 0 then
+    .error CIF_ARGUMENT_ERROR
+  else
+    let neg : Bool := val.neg && decide (val.m ≠ 0)            -- (val < 0)
+    match initText neg (initDigits val scale) (initSu su scale) scale maxLead msp with
+    | none => .error CIF_ARGUMENT_ERROR
+    | some t => .ok (V.numb false t neg (initDigits val scale) (initSu su scale) scale)
+
+/-- number of trailing zero bits of a positive `m` (fuel = bit length) -/
+def trailingZeros : Nat → Nat → Nat
+  | 0, _ => 0
+  | fuel + 1, m => if m % 2 = 0 ∧ m ≠ 0 then 1 + trailingZeros fuel (m / 2) else 0
+
+/-- `frac_bits(val, &exponent)`: `(bit_count, exponent)` -/
+def fracBits (v : Bin) : Nat × Int :=
+  if v.m = 0 then (0, 0)
+  else
+    let b := bitLen v.m
+    (b - trailingZeros b v.m, v.e + (b : Nat))
+
+/-- `sprintf(buf, "%.*e", p - 1, su)` as exact arithmetic: the `p` significant decimal digits of `num/den`, correctly
+    rounded (ties to even), as an integer, and the decimal exponent printed after `e` -/
+def sciDigits (num den : Nat) (p : Nat) : Nat × Int :=
+  let x := flog10Rat num den
+  -- num/den / 10^(x-(p-1))
+  let sh : Int := x - ((p - 1 : Nat) : Int)
+  let n' := if sh ≥ 0 then num else num * pow10 (-sh).toNat
+  let d' := if sh ≥ 0 then den * pow10 sh.toNat else den
+  let z := rhe n' d'
+  if z = pow10 p then (pow10 (p - 1), x + 1) else (z, x)
+
+/-- the scale `cif_value_autoinit_numb` chooses for a non-zero su: format the su with as many significant digits as the
+    rule has (`sprintf("%.*e")`), take the scale of its last digit, and one less if the digits exceed the rule -/
+def autoScale (su : Bin) (suRule : Nat) : Int :=
+  -- (int) log10(su_rule + 0.5) + 1
+  if (sciDigits (ratOfBin su.m su.e).1 (ratOfBin su.m su.e).2 (decDigits suRule).length).1 > suRule then
+    -- reduce the scale by 1 if the su needs to be rounded to fewer digits
+    (-(sciDigits (ratOfBin su.m su.e).1 (ratOfBin su.m su.e).2 (decDigits suRule).length).2
+        + ((decDigits suRule).length : Nat) - 1) - 1
+  else
+    -(sciDigits (ratOfBin su.m su.e).1 (ratOfBin su.m su.e).2 (decDigits suRule).length).2
+        + ((decDigits suRule).length : Nat) - 1
+
+/-- the scale chosen for an exact number (`su == 0`) -/
+def exactScale (val : Bin) (msp : Int) : Int :=
+  if (fracBits val).2 ≤ ((fracBits val).1 : Nat) then ((fracBits val).1 : Nat) - (fracBits val).2
+  else if msp < (DBL_DIG : Nat) then 0 else ((DBL_DIG : Nat) - 1) - msp
+
+/-- `cif_value_autoinit_numb(numb, val, su, su_rule)` -/
+def autoinitNumb (val su : Bin) (suRule : Nat) (msp : Int) : Except Code V :=
+  if (su.neg ∧ su.m ≠ 0) ∨ suRule < 2 then .error CIF_ARGUMENT_ERROR
+  else if su.m = 0 then
+    -- an exact number
+    initNumb val su (exactScale val msp) DEFAULT_MAX_LEAD_ZEROES msp
+  else
+    initNumb val su (autoScale su suRule) DEFAULT_MAX_LEAD_ZEROES msp
+
+/-! ### cif_value_get_number / cif_value_get_su -/
+
+def negDbl : Dbl → Dbl
+  | .fin n m e => .fin (!n) m e
+  | .inf n => .inf (!n)
+  | .nan => .nan
+
+/-- the in-place coercion both getters start with: the (possibly converted) value, or the error code -/
+def coerceNumb (v : V) : Except Code V :=
+  match v with
+  | .chr q t =>
+    match parseNumb t with
+    | some f => .ok (V.numb q (cstr t) f.neg f.digits f.su f.scale)
+    | none => .error CIF_INVALID_NUMBER
+  | .numb .. => .ok v
+  | _ => .error CIF_ARGUMENT_ERROR
+
+/-- `cif_value_get_number`: the value object afterwards and the double -/
+def getNumber (v : V) : Except Code (V × Dbl) :=
+  match coerceNumb v with
+  | .error c => .error c
+  | .ok w =>
+    match w with
+    | .numb _ _ neg digits _ scale =>
+      let d := toDoubleBig digits scale
+      .ok (w, if neg then negDbl d else d)
+    | _ => .error CIF_INTERNAL_ERROR
+
+/-- `cif_value_get_su` -/
+def getSu (v : V) : Except Code (V × Dbl) :=
+  match coerceNumb v with
+  | .error c => .error c
+  | .ok w =>
+    match w with
+    | .numb _ _ _ _ su scale =>
+      .ok (w, match su with | none => .fin false 0 0 | some sd => toDoubleBig sd scale)
+    | _ => .error CIF_INTERNAL_ERROR
 
 end CifModel.Model.Numb
